@@ -55,9 +55,16 @@ POOL = ["a", "b", "v", "w", "u", "n", "ig", "x.o", "t.tmp", "y~", "c.THIS", "c.B
 IGN = ["ig", "*.o", "*.tmp", "./v/ig", "n", "u/*", "m"]
 
 
-def _inp(fmt, layout, versioned, ignore, flags, dry=False, confirm=None):
+def _inp(fmt, layout, versioned, ignore, flags, dry=False, confirm=None, swap=()):
+    # swap: directories that are replaced by a symlink to the directory OUTSIDE the tree after the
+    # versioned set has been recorded (uncommitted kind change of a versioned directory)
     return {"fmt": fmt, "layout": [list(e) for e in layout], "versioned": list(versioned),
-            "ignore": list(ignore), "flags": [bool(x) for x in flags], "dry": bool(dry), "confirm": confirm}
+            "ignore": list(ignore), "flags": [bool(x) for x in flags], "dry": bool(dry), "confirm": confirm,
+            "swap": list(swap)}
+
+
+def _gitfile(d):
+    return [(d + "/.git", "f")]
 
 
 def _bzrctl(d):
@@ -96,6 +103,19 @@ def corpus():
     out.append(_inp("git", [("n", "d")] + _bzrctl("n"), [], [], (1, 0, 0)))
     out.append(_inp("bzr", [("ig", "d"), ("ig/a", "d"), ("ig/a/g", "d")] + _gitctl("ig/a/g") + [("ig/x", "f")],
                     [], ["ig"], (0, 1, 0)))
+    # a versioned directory swapped for a symlink to a directory outside the tree: nothing outside may go
+    for fl in ((1, 0, 0), (0, 1, 0), (0, 0, 1), (1, 1, 1)):
+        out.append(_inp("bzr", [("v", "d"), ("v/f", "f"), ("x", "f")], ["v", "v/f"], ["o", "sub"], fl, swap=["v"]))
+    out.append(_inp("bzr", [("a", "d"), ("a/v", "d"), ("a/v/f", "f")], ["a", "a/v"], [], (1, 0, 0), swap=["a/v"]))
+    out.append(_inp("git", [("v", "d"), ("v/f", "f"), ("x", "f")], ["v/f"], [], (1, 1, 1), swap=["v"]))
+    # nested git checkouts whose .git is a gitdir pointer FILE (worktree / submodule), at the top of an
+    # unknown / ignored directory and deeper
+    out.append(_inp("bzr", [("w", "d")] + _gitfile("w") + [("w/k", "f")], [], [], (1, 0, 0)))
+    out.append(_inp("bzr", [("u", "d"), ("u/a", "d"), ("u/a/w", "d")] + _gitfile("u/a/w") + [("u/a/w/k", "f"), ("u/z", "f")],
+                    [], [], (1, 0, 0)))
+    out.append(_inp("bzr", [("ig", "d"), ("ig/w", "d")] + _gitfile("ig/w") + [("ig/w/k", "f")], [], ["ig"], (0, 1, 0)))
+    out.append(_inp("bzr", [("y~", "d"), ("y~/w", "d")] + _gitfile("y~/w"), [], [], (0, 0, 1)))
+    out.append(_inp("git", [("u", "d"), ("u/w", "d")] + _gitfile("u/w") + [("u/w/k", "f"), ("u/z", "f")], [], [], (1, 0, 0)))
     # witnesses of the residue C46-nested-branch-working-files
     out.append(_inp("git", [("n", "d")] + _bzrctl("n") + [("n/work", "f")], [], [], (1, 0, 0)))
     out.append(_inp("bzr", [("v", "d")] + _gitctl("v") + [("v/k", "f")], ["v"], [], (1, 0, 0)))
@@ -144,7 +164,10 @@ def _random_layout(rng, fmt):
         r = rng.random()
         pre = d + "/" if d else ""
         have = {p for p, _ in layout}
-        if d == "" or r < 0.4:
+        if d != "" and r < 0.15:
+            if pre + ".git" not in have:
+                layout.append((pre + ".git", "f"))          # gitdir pointer file
+        elif d == "" or r < 0.4:
             if pre + ".git" not in have:
                 layout += [(pre + ".git", "d"), (pre + ".git/HEAD", "f")]
         elif r < 0.85:
@@ -204,7 +227,18 @@ def cases(rng, tier):
         ign = [x for x in IGN if rng.random() < 0.25]
         fl = rng.choice([(1, 0, 0), (1, 0, 0), (0, 1, 0), (0, 0, 1), (1, 1, 0), (1, 0, 1), (0, 1, 1), (1, 1, 1), (0, 0, 0)])
         r = rng.random()
-        yield _inp(fmt, lay, vs, ign, fl, dry=(r < 0.1), confirm=(None if r < 0.8 else (r < 0.92)))
+        swap = []
+        if rng.random() < 0.12:
+            kinds = dict(lay)
+            if fmt == "bzr":
+                cand = [v for v in vs if kinds.get(v) == "d"]
+            else:
+                cand = sorted({a for v in vs for a in _anc(v)})
+            cand = [c for c in cand if not any(k.startswith("li:") and (k[3:] == c or k[3:].startswith(c + "/"))
+                                               for k in kinds.values())]
+            if cand:
+                swap = [rng.choice(cand)]
+        yield _inp(fmt, lay, vs, ign, fl, dry=(r < 0.1), confirm=(None if r < 0.8 else (r < 0.92)), swap=swap)
 
 
 # ---------------------------------------------------------------- implementation driver
@@ -226,6 +260,8 @@ def impl(inp):
         wt = WorkingTree.open(base)
         if inp["versioned"]:
             wt.add(list(inp["versioned"]))
+        for p in inp.get("swap", []):
+            D.swap_for_outside_link(base, p)
         wt = WorkingTree.open(base)
         before = D.snapshot(base, fmt)
         with wt.lock_read():
@@ -249,8 +285,11 @@ def impl(inp):
         after = D.snapshot(base, fmt)
         facts = {"before": [list(e) for e in before], "vs": vs, "ign": ign}
         _cache[_key(inp)] = facts
+        outside_ok = D.outside_state() == out0
+        if not outside_ok:
+            D.reset_outside()
         return {"facts": facts, "dels": dels, "after": [list(e) for e in after],
-                "outside_ok": D.outside_state() == out0, "exc": exc}
+                "outside_ok": outside_ok, "exc": exc}
     finally:
         ui.ui_factory = old_ui
         shutil.rmtree(base, ignore_errors=True)
@@ -369,7 +408,7 @@ def nontrivial(inp, obs):
 
 def distribution(inputs, observations):
     d = {"bzr": 0, "git": 0, "deleted_something": 0, "with_nested_control": 0, "dry_or_declined": 0,
-         "symlinks": 0, "by_flags": {}}
+         "symlinks": 0, "swapped_dir": 0, "gitdir_file": 0, "by_flags": {}}
     for i, o in zip(inputs, observations):
         d[i["fmt"]] += 1
         if not isinstance(o, Err) and len(o["after"]) != len(o["facts"]["before"]):
@@ -380,6 +419,8 @@ def distribution(inputs, observations):
             d["dry_or_declined"] += 1
         if any(k.startswith("l") for _p, k in i["layout"]):
             d["symlinks"] += 1
+        d["swapped_dir"] += bool(i.get("swap"))
+        d["gitdir_file"] += any(p.rsplit("/", 1)[-1] == ".git" and k == "f" for p, k in i["layout"])
         k = "".join("1" if x else "0" for x in i["flags"])
         d["by_flags"][k] = d["by_flags"].get(k, 0) + 1
     return d
@@ -395,6 +436,8 @@ def shrink(inp, fails):
             lay = [e for e in cur["layout"] if e[0] != p and not e[0].startswith(p + "/")
                    and not (e[1].startswith("li:") and (e[1][3:] == p or e[1][3:].startswith(p + "/")))]
             vs = [v for v in cur["versioned"] if v != p and not v.startswith(p + "/")]
+            if any(w == p or w.startswith(p + "/") for w in cur.get("swap", [])):
+                continue
             cand = dict(cur, layout=lay, versioned=vs)
             try:
                 if fails(cand):
